@@ -332,7 +332,9 @@ func aggregateRows(selectList sql.SelectList, groupBy []sql.ColumnReference, row
 	groupKey := func(row *storage.Row) string {
 		var key string
 		for _, idx := range groupByIdx {
-			key += fmt.Sprintf("%v", row.Vals[idx])
+			// length-prefixed so that (1, 23) and (12, 3) get different keys
+			val := fmt.Sprintf("%v", row.Vals[idx])
+			key += fmt.Sprintf("%d:%s|", len(val), val)
 		}
 		return key
 	}
